@@ -231,3 +231,9 @@ def _check_from_tagged(ctx, fn):
            "from_tagged_slice(s): read_to_value(s)? -> try_as_tag()? -> tag != Self::TAG => Err, else Self::from_cbor_value(*payload)",
            where=fn.span, detail=det)
 REGISTER = True
+
+
+def thorough(ctx):
+    """re-derive the facts about the pinned ciborium that this property leans on (DESIGN section 9)"""
+    from rules import audit
+    audit.audit(ctx, "R-audit", ['recursion'])
